@@ -775,6 +775,35 @@ def nn_cases(seed, tier):
         nq = len(sel) if len(sel) <= 12 else 6
         queries = sorted(rng.sample(range(len(sel)), nq))
         add(G, dim, per, sel, queries, 100000, emb)
+    # "general position" inputs: random points of a fine lattice (G = 256..2048 per axis: hardly any equidistant pair, yet every
+    # squared distance is an integer below 2^31 that TLC recomputes exactly), uniform and clustered, anisotropic periods
+    fine = 8 if tier == "quick" else 60
+    for k in range(fine):
+        dim = [3, 3, 2, 1][k % 4]
+        per = k % 2 == 0
+        gsz = [rng.choice([256, 512, 1024, 2048]) for _ in range(3)]
+        if k % 3 != 0:
+            gsz = [gsz[0]] * 3
+        if per:
+            gsz = [min(g, 1024) for g in gsz]          # differences reach 2G when periodic
+        for a in range(dim, 3):
+            gsz[a] = 1
+        n = rng.randint(20, 120 if tier == "quick" else 300)
+        pts = set()
+        if k % 4 in (0, 3):
+            while len(pts) < n:
+                pts.add(tuple(rng.randrange(gsz[a]) if a < dim else 0 for a in range(3)))
+        else:
+            cs = [tuple(rng.randrange(gsz[a]) if a < dim else 0 for a in range(3)) for _ in range(rng.randint(1, 4))]
+            while len(pts) < n:
+                c = rng.choice(cs)
+                r = rng.choice([3, 8, 40])
+                p = tuple(min(gsz[a] - 1, max(0, c[a] + rng.randint(-r, r))) if a < dim else 0 for a in range(3))
+                pts.add(p)
+        sel = sorted(pts)
+        queries = sorted(rng.sample(range(len(sel)), 5))
+        emb = dict(h=[2.0 ** -10, 1e-3, 1.0, 0.37][k % 4], o=[[0.0, 0.0, 0.0], [-17.25, 3.5, 0.7]][k % 2])
+        add(gsz, dim, per, sel, queries, 100000, emb)
     # large inputs: 10^3 (quick) .. 10^4 (thorough) lattice points, the prefix the builder consumes
     big = [(9, 3, True), (9, 3, False), (31, 2, True)] if tier == "quick" else [(9, 3, True), (9, 3, False), (21, 3, True), (21, 3, False), (99, 2, True), (999, 1, True)]
     for (g, dim, per) in big:
